@@ -224,6 +224,7 @@ def trusted_scan(text):
     for mm in re.finditer(r'#\[verifier::external\]', m):
         found.append('verifier::external at line %d' % (m.count('\n', 0, mm.start()) + 1))
     n_markers = len(re.findall(r'external_body|assume_specification|external_type_specification|\buninterp\b|exec_allows_no_decreases_clause', m))
+    n_markers -= len([l for l in m.split('\n') if 'external_type_specification' in l and 'external_body' in l])
     if n_markers != len([f for f in found if not f.startswith(('assume(', 'admit(', 'verifier::external '))]):
         found.append('UNPARSED trusted marker (scan found %d markers)' % n_markers)
     return sorted(set(found))
